@@ -104,3 +104,12 @@ chk('C08', 'exploration',
     'a sample in every run (fields readelf leaves unrelocated give no information).',
     'psABI formulas transcribed per type; P = offset in the section; R_ARM_CALL/BPF outside the quantifier.',
     'reference-model oracle (psABI formulas, RELR expander) cross-validated against GNU readelf -R', 'DESIGN.md section 4 C08')
+chk('C09', 'exploration',
+    'Ground truth + equivalence oracle: one generated logical dynamic image (machine/OS-specific tags, duplicates, entries after DT_NULL, '
+    'string tags, dynamic symbols, SysV/GNU hash in occupied and both empty spellings, REL/RELA/RELR/JMPREL, PT_LOAD address != offset, '
+    'arbitrarily named or shadowed dynamic string table) is emitted with section headers, without them, and with the .dynamic section away '
+    'from PT_DYNAMIC; the tag sequence and strings are compared with ground truth and every view with every other (tags, strings, symbols, '
+    'relocation tables, table offsets, recovered symbol count), under stream poisoning. A metamorphic pass strips the section headers of '
+    'every corpus file that has a dynamic section.',
+    'Section link and DT_STRTAB designate the same table; valid UTF-8 strings; symbol count judged only when a hash table exists.',
+    'ground-truth generator + cross-view equivalence (metamorphic) oracle + stream poisoning', 'DESIGN.md section 4 C09')
